@@ -1831,3 +1831,155 @@ def construct (shape : Option (List Char)) (cls : Nat) (optional : Bool) : Excep
 end Dltype.Gen
 """
     return out
+
+
+# =====================================================================================================================
+# _flush_op_by_precedence and _get_group_indices  ->  Generated/ParseHelpers.lean
+# =====================================================================================================================
+
+PH_HEADER = """/-- enum member name of what can be `current_op` / lie on the operator stack (fixed text) -/
+def opNameP : Op → String
+  | .bin .add => "ADD" | .bin .sub => "SUB" | .bin .mul => "MUL" | .bin .exp => "EXP" | .bin .div => "DIV"
+  | .fn .min => "MIN" | .fn .max => "MAX" | .fn .isqrt => "ISQRT"
+
+/-- `_op_precedence.get(x, 0)` -/
+def precOf (name : String) : Nat := ((opPrecedence.lookup name).getD 0)
+
+/-- state of the scan of `_get_group_indices` -/
+structure GroupState where
+  lparen_idx : Option Nat := none
+  comma_idx : List Nat := []
+  rparen_idx : Option Nat := none
+  nesting_depth : Int := 0
+  deriving Repr
+
+"""
+
+
+def gen_parsehelpers(lib_dir: str, header: str) -> str:
+    with open(os.path.join(lib_dir, "_parser.py")) as fh:
+        mod = ast.parse(fh.read(), filename="_parser.py")
+
+    def fn(name):
+        f = next((n for n in mod.body if isinstance(n, ast.FunctionDef) and n.name == name), None)
+        if f is None:
+            raise TErr(f"{name} not found")
+        return f
+
+    # ---- _flush_op_by_precedence ---------------------------------------------------------------------------------
+    f = fn("_flush_op_by_precedence")
+    if [a.arg for a in f.args.args] != ["stack", "postfix", "current_op"]:
+        raise TErr("_flush_op_by_precedence: parameters")
+    b = _strip(f.body)
+    if not (len(b) == 1 and isinstance(b[0], ast.While) and not b[0].orelse and [_src(x) for x in b[0].body] == ["postfix.append(stack.pop())"]):
+        raise TErr("_flush_op_by_precedence: expected one `while ...: postfix.append(stack.pop())`")
+    t = b[0].test
+    if not (isinstance(t, ast.BoolOp) and isinstance(t.op, ast.And) and len(t.values) == 3 and _src(t.values[0]) == "stack"
+            and _src(t.values[1]) == "isinstance(stack[-1], _DLTypeOperator | _DLTypeGroupToken)" and isinstance(t.values[2], ast.Compare) and len(t.values[2].ops) == 1
+            and _src(t.values[2].left) == "_op_precedence.get(stack[-1], 0)" and _src(t.values[2].comparators[0]) == "_op_precedence.get(current_op, 0)"):
+        raise TErr(f"_flush_op_by_precedence: loop condition `{_src(t)}`")
+    fsym = {ast.GtE: "≥", ast.Gt: ">", ast.LtE: "≤", ast.Lt: "<", ast.Eq: "=", ast.NotEq: "≠"}.get(type(t.values[2].ops[0]))
+    if fsym is None:
+        raise TErr("_flush_op_by_precedence: comparison")
+
+    # ---- _get_group_indices ---------------------------------------------------------------------------------------
+    g = fn("_get_group_indices")
+    if [a.arg for a in g.args.args] != ["expr", "offset"]:
+        raise TErr("_get_group_indices: parameters")
+    gb = _strip(g.body)
+    inits = {"lparen_idx: int | None = None": 1, "comma_idx: list[int] = []": 1, "rparen_idx: int | None = None": 1, "nesting_depth = 0": 1}
+    k = 0
+    while k < len(gb) and _src(gb[k]) in inits:
+        k += 1
+    if k != 4:
+        raise TErr("_get_group_indices: initialisations")
+    loop = gb[4]
+    if not (isinstance(loop, ast.For) and _src(loop.target) == "(idx, tok)" and _src(loop.iter) == "enumerate(expr)" and not loop.orelse and len(loop.body) == 2):
+        raise TErr("_get_group_indices: the loop is not `for idx, tok in enumerate(expr)` with an if-chain and the break test")
+    tokc = {"tok == _DLTypeGroupToken.LPAREN": "tok == Tok.lp", "tok == _DLTypeGroupToken.COMMA": "tok == Tok.comma", "tok == _DLTypeGroupToken.RPAREN": "tok == Tok.rp",
+            "nesting_depth == 1": "decide (st.nesting_depth = 1)"}
+
+    def gcond(e):
+        if isinstance(e, ast.BoolOp):
+            return "(" + (" && " if isinstance(e.op, ast.And) else " || ").join(gcond(v) for v in e.values) + ")"
+        c = tokc.get(_src(e))
+        if c is None:
+            raise TErr(f"_get_group_indices: condition `{_src(e)}`")
+        return c
+
+    def gstmts(stmts):
+        """sequential updates of the scan state (each statement sees the effect of the previous ones)"""
+        out = []
+        for s in stmts:
+            if isinstance(s, ast.AugAssign) and _src(s.target) == "nesting_depth" and isinstance(s.value, ast.Constant) and isinstance(s.op, (ast.Add, ast.Sub)):
+                out.append(f"let st := {{ st with nesting_depth := st.nesting_depth {'+' if isinstance(s.op, ast.Add) else '-'} {s.value.value} }}")
+            elif isinstance(s, ast.Assign) and _src(s.targets[0]) in ("lparen_idx", "rparen_idx") and isinstance(s.value, ast.IfExp) and _src(s.value.body) == "idx + offset" \
+                    and _src(s.value.orelse) == _src(s.targets[0]):
+                v = _src(s.targets[0])
+                out.append(f"let st := {{ st with {v} := if {gcond(s.value.test)} then some (idx + offset) else st.{v} }}")
+            elif _src(s) == "comma_idx.append(idx + offset)":
+                out.append("let st := { st with comma_idx := st.comma_idx ++ [idx + offset] }")
+            else:
+                raise TErr(f"_get_group_indices: statement `{_src(s)}`")
+        return out
+
+    node = loop.body[0]
+    arms = []
+    while isinstance(node, ast.If):
+        arms.append((gcond(node.test), gstmts(node.body)))
+        if len(node.orelse) == 1 and isinstance(node.orelse[0], ast.If):
+            node = node.orelse[0]
+        elif not node.orelse:
+            break
+        else:
+            raise TErr("_get_group_indices: final else in the if-chain")
+    brk = loop.body[1]
+    if not (isinstance(brk, ast.If) and _src(brk.test) == "rparen_idx" and len(brk.body) == 1 and isinstance(brk.body[0], ast.Break) and not brk.orelse):
+        raise TErr("_get_group_indices: the break test is not `if rparen_idx: break`")
+    tail = gb[5:]
+    want = ["lparen_idx is None", "rparen_idx is None"]
+    if not (len(tail) == 4 and all(isinstance(x, ast.If) and not x.orelse for x in tail[:3]) and [_src(x.test) for x in tail[:2]] == want
+            and _src(tail[2].test) == "lparen_idx > rparen_idx or any((c_idx < lparen_idx or c_idx > rparen_idx for c_idx in comma_idx))"
+            and _src(tail[3]) == "return (lparen_idx, comma_idx, rparen_idx)"):
+        raise TErr("_get_group_indices: statements after the loop: " + " ; ".join(_src(x)[:70] for x in tail))
+    for x in tail[:3]:
+        inner = [y for y in x.body if not (isinstance(y, ast.Assign) and isinstance(y.value, (ast.Constant, ast.JoinedStr)))]
+        if not (len(inner) == 1 and isinstance(inner[0], ast.Raise) and _src(inner[0].exc).startswith("SyntaxError")):
+            raise TErr("_get_group_indices: a test after the loop does not raise SyntaxError")
+
+    out = header
+    out += "import DltypeModel.Parser\nimport DltypeModel.Generated.ParserTables\nset_option linter.unusedVariables false\nnamespace Dltype.Gen\nopen Dltype\n\n"
+    out += PH_HEADER
+    out += f"""/-- `_flush_op_by_precedence(stack, postfix, current_op)`: the operator stack has its top at the head; `pname` is the enum member
+    name of `current_op`.  (`isinstance(stack[-1], _DLTypeOperator | _DLTypeGroupToken)` is true of everything the parser pushes.) -/
+def flushLoop (pname : String) : List Op → List PItem → List Op × List PItem
+  | [], out => ([], out)
+  | top :: stack, out =>
+    if decide (precOf (opNameP top) {fsym} precOf pname) then flushLoop pname stack (out ++ [.op top]) else (top :: stack, out)
+
+/-- one iteration of the scan of `_get_group_indices`, before the break test -/
+def groupStep (tok : Tok) (idx offset : Nat) (st : GroupState) : GroupState :=
+"""
+    for i, (c, ss) in enumerate(arms):
+        out += f"  {'if' if i == 0 else 'else if'} {c} then\n"
+        for l in ss:
+            out += f"    {l}\n"
+        out += "    st\n"
+    out += "  else st\n\n"
+    out += """/-- loop skeleton (fixed text): `for idx, tok in enumerate(expr)` with `if rparen_idx: break` (a positive index is truthy) -/
+def groupLoop (offset : Nat) : List Tok → Nat → GroupState → GroupState
+  | [], _, st => st
+  | tok :: rest, idx, st =>
+    let st := groupStep tok idx offset st
+    if (match st.rparen_idx with | some r => decide (r ≠ 0) | none => false) then st else groupLoop offset rest (idx + 1) st
+
+/-- `_get_group_indices(expr, offset)`; `none` = SyntaxError -/
+def groupIndices (expr : List Tok) (offset : Nat) : Option (Nat × List Nat × Nat) :=
+  let st := groupLoop offset expr 0 {}
+  match st.lparen_idx, st.rparen_idx with
+  | some l, some r => if decide (l > r) || st.comma_idx.any (fun c => decide (c < l) || decide (c > r)) then none else some (l, st.comma_idx, r)
+  | _, _ => none
+
+end Dltype.Gen
+"""
+    return out
